@@ -49,17 +49,26 @@ func TestGocvReplayF21(t *testing.T) {
 		t.Errorf("GOCV-REPRODUCED VerifyEncShareBatch kept %d shares, want the 4 well-formed ones", kept)
 	}
 	// ... or lacks a commitment, which the global challenge hashes before any share is verified
-	bad3 := *encShares[1]
-	bad3.P = dleq.Proof{C: bad3.P.C, R: bad3.P.R, VG: nil, VH: bad3.P.VH}
-	shares3 := append([]*PubVerShare{}, encShares...)
-	shares3[1] = &bad3
-	if err, p := gocvF21Recover(func() error {
-		_, _, err := VerifyEncShareBatch(conf.suite, conf.H, conf.X, sH, pubPoly, shares3)
-		return err
-	}); p != nil {
-		t.Errorf("GOCV-REPRODUCED one encrypted share without a proof commitment crashes the global challenge computation: %v", p)
-	} else if err == nil {
-		t.Errorf("GOCV-REPRODUCED a batch with a share lacking a proof commitment yields a global challenge")
+	for _, which := range []string{"VG", "VH", "V"} {
+		bad3 := *encShares[1]
+		switch which {
+		case "VG":
+			bad3.P = dleq.Proof{C: bad3.P.C, R: bad3.P.R, VG: nil, VH: bad3.P.VH}
+		case "VH":
+			bad3.P = dleq.Proof{C: bad3.P.C, R: bad3.P.R, VG: bad3.P.VG, VH: nil}
+		default:
+			bad3.S.V = nil
+		}
+		shares3 := append([]*PubVerShare{}, encShares...)
+		shares3[1] = &bad3
+		if err, p := gocvF21Recover(func() error {
+			_, _, err := VerifyEncShareBatch(conf.suite, conf.H, conf.X, sH, pubPoly, shares3)
+			return err
+		}); p != nil {
+			t.Errorf("GOCV-REPRODUCED one encrypted share without %s crashes the global challenge computation: %v", which, p)
+		} else if err == nil {
+			t.Errorf("GOCV-REPRODUCED a batch with a share lacking %s yields a global challenge", which)
+		}
 	}
 	// a decrypted share whose proof lacks a commitment
 	G := conf.suite.Point().Base()
